@@ -1,6 +1,7 @@
 package main
 
 import (
+	"bytes"
 	"encoding/json"
 	"fmt"
 	"go/ast"
@@ -198,10 +199,39 @@ func scopeNames(s reflect.Value) []string {
 
 // c18File: decorate (object resolution on) and restore with Extras; both graph pairs.
 func c18File(c *Ctx, path string, src []byte, out *ndjson) {
+	c18FileMode(c, path, src, out, false)
+	if bytes.Contains(src, []byte("import")) {
+		c18FileMode(c, path, src, out, true)
+	}
+}
+
+// resolved: ast.NewPackage has run on the file with an importer, so identifiers that name an imported
+// package are bound to package objects whose Data is the imported package's scope
+func c18FileMode(c *Ctx, path string, src []byte, out *ndjson, resolved bool) {
 	fset := token.NewFileSet()
 	af, err := parser.ParseFile(fset, path, src, parser.ParseComments)
 	if err != nil {
 		return
+	}
+	if resolved {
+		imp := func(imports map[string]*ast.Object, p string) (*ast.Object, error) {
+			if o := imports[p]; o != nil {
+				return o, nil
+			}
+			name := p
+			if i := strings.LastIndex(p, "/"); i >= 0 {
+				name = p[i+1:]
+			}
+			o := ast.NewObj(ast.Pkg, name)
+			sc := ast.NewScope(nil)
+			sc.Insert(ast.NewObj(ast.Var, "Exported"))
+			sc.Insert(ast.NewObj(ast.Fun, "New"))
+			o.Data = sc
+			imports[p] = o
+			return o, nil
+		}
+		ast.NewPackage(fset, map[string]*ast.File{path: af}, imp, nil)
+		path += "|resolved-with-importer"
 	}
 	d := decorator.NewDecorator(fset)
 	var df *dst.File
@@ -476,4 +506,27 @@ func checkC18(c *Ctx) {
 		c.Fail(Finding{Sig: "objects-" + res.Violated, Input: rec.Side + "|" + rec.Key + rec.File, What: fmt.Sprintf("law %s of ObjectsTrace.tla fails (%s %s%s): %s", res.Violated, rec.Side, rec.Key, rec.File, truncate(ev, 600)), Replay: it.Replay})
 	})
 	c.Set("rule", "case = the identifier/object/scope graph of one corpus file before and after decoration, and after restoration with Extras; or one multi-file package built with ast.NewPackage vs dst.NewPackage; non-trivial = the file has objects / the package has reports; distinct by file + side")
+}
+
+func init() {
+	replayers["c18"] = func(raw json.RawMessage) string {
+		var r struct{ Path string }
+		json.Unmarshal(raw, &r)
+		p := strings.TrimSuffix(r.Path, "|resolved-with-importer")
+		src, err := readFile(p)
+		if err != nil {
+			return "harness: " + err.Error()
+		}
+		c := newCtx("C18", "quick", 1, "model_checking")
+		tr := &ndjson{}
+		c18File(c, p, src, tr)
+		out := ""
+		if len(c.findings) > 0 {
+			out = c.findings[0].What
+		}
+		validateTraces(c, "ObjectsTrace", objectsTraceCfg, []traceItem{{Key: p, Trace: tr.Bytes(), Events: tr.Len()}}, 40, false, func(it traceItem, res *TLCResult) {
+			out += "law " + res.Violated + " of ObjectsTrace.tla fails: " + truncate(offendingEvent(it, res), 600)
+		})
+		return out
+	}
 }
